@@ -219,6 +219,7 @@ func inputGen() *rapid.Generator[any] {
 		map[string]any{"a": []any{1, 2, map[string]any{"b": nil}}, "b": "x", "c": map[string]any{"a": 1}},
 		[]any{map[string]any{"a": 1, "b": 2}, map[string]any{"a": 3, "b": 4}}, []any{[]any{1, 2}, []any{3}}, []any{3, 1, 2}, "abcabc", "aAbB", 1, nil,
 		map[string]any{"a": map[string]any{"q": map[string]any{"z": 1}}}, []any{"abc", "bcd", "a"}, map[string]any{"a": 1, "b": []any{map[string]any{"a": map[string]any{"q": 2}}}},
+		[]any{map[string]any{}, map[string]any{"a": 1}, map[string]any{"b": 2}}, []any{[]any{}, []any{1}, []any{2}}, map[string]any{"a": map[string]any{}, "b": map[string]any{"x": 1}}, []any{nil, map[string]any{}, map[string]any{"c": []any{1}}},
 	}
 	return rapid.OneOf(rapid.SampledFrom(fixed), rapid.SampledFrom(fixed), gen.Value(gen.Opt{MaxDepth: 3, MaxWidth: 3, SmallInts: true}))
 }
@@ -276,6 +277,12 @@ func TestC06(t *testing.T) {
 	}
 	rec.Rapid(t, "templates", rec.Scale(6000, 200000), func(t *rapid.T) {
 		q := rapid.SampledFrom(templates).Draw(t, "q")
+		if rapid.IntRange(0, 2).Draw(t, "mutating") == 0 {
+			// the structure-sharing programs of C05 (no $v here)
+			if m := rapid.SampledFrom(gen.MutatingPrograms).Draw(t, "mq"); !strings.Contains(m, "$v") {
+				q = m
+			}
+		}
 		if rapid.IntRange(0, 3).Draw(t, "compose") == 0 {
 			q = "(" + q + ")?, (" + rapid.SampledFrom(templates).Draw(t, "q2") + ")?"
 		}
